@@ -1203,3 +1203,52 @@ Proof.
     lra. }
   split; [lra|]. split; lra.
 Qed.
+
+(* ---------- vertex hits: every vertex, l_j = 0 included ---------- *)
+
+Theorem vertex_fraction_position_full_ieee (path : list Pos) (M : R) j pj lj :
+  Forall (fun p => coord_le p 20) path -> segs_ok path -> (length path <= 2 ^ 50)%nat ->
+  poly_len (map R2 path) <= pw 40 -> coords_le M path -> 0 <= M ->
+  let lens := natural path D.zero in
+  let L := Curve.dist lens in
+  nth_error path j = Some pj -> nth_error lens j = Some lj -> 0 < B2R L ->
+  let B := (1 + delta19) * Dfrac (B2R lj) (B2R L) + INR (length path) * eta19 * B2R L + E19max M in
+  exists q, position_at path lens (D.div lj L) = Done q /\
+    Rabs (B2R (px q) - B2R (px pj)) <= B /\ Rabs (B2R (py q) - B2R (py pj)) <= B.
+Proof.
+  intros Hc Hs Hn Ht40 HM HM0 lens L Hj Lj HL0 B.
+  destruct (natural_nth_bound path Hc Hs Hn Ht40 _ _ Lj) as (Flj & Zlj & _).
+  destruct (Rle_lt_or_eq_dec _ _ Zlj) as [Hpos|Hzero].
+  - exact (vertex_fraction_position_ieee path Hc Hs Hn Ht40 M HM HM0 j pj lj Hj Lj Hpos).
+  - destruct (dist_bounds path Hc Hs Hn Ht40) as (FL & ZL & UL). fold lens L in FL, ZL, UL.
+    assert (UL' : B2R L <= pw 1023) by (eapply Rle_trans; [exact UL|apply bpow_le; zl]).
+    (* the progress is a zero *)
+    assert (Mq : Rabs (B2R lj / B2R L) <= pw 0).
+    { rewrite <- Hzero. unfold Rdiv. rewrite Rmult_0_l, Rabs_R0. apply bpow_ge_0. }
+    destruct (D_div_spec lj L 0 Flj FL (Rgt_not_eq _ _ HL0) ltac:(zl) Mq) as (Fp & _ & _).
+    pose proof (Bdiv_correct 53 1024 Hp64 He64 mode_NE lj L (Rgt_not_eq _ _ HL0)) as C.
+    rewrite (no_overflow 53 1024 Hp64 _ 0 ltac:(zl) Mq) in C. destruct C as (CR & _).
+    change (Bdiv mode_NE lj L) with (D.div lj L) in CR.
+    assert (Rp : B2R (D.div lj L) = 0).
+    { rewrite CR, <- Hzero. unfold Rdiv. rewrite Rmult_0_l. apply RN64_0. }
+    destruct (progress_to_dist_range lens (D.div lj L) Fp ltac:(rewrite Rp; lra) FL ZL UL') as (Fd & Hd).
+    pose proof (progress_to_dist_error lens (D.div lj L) Fp ltac:(rewrite Rp; lra) FL ZL UL') as Ed.
+    (* and so is the distance: fl(0 * L) *)
+    destruct (in_unit_not_clamped _ Fp ltac:(rewrite Rp; lra)) as (C0 & C1).
+    assert (Rd : B2R (progress_to_dist lens (D.div lj L)) = 0).
+    { rewrite (progress_to_dist_inside lens _ C0 C1). fold L.
+      assert (MpL : Rabs (B2R (D.div lj L) * B2R L) <= pw 1023).
+      { rewrite Rp, Rmult_0_l, Rabs_R0. apply bpow_ge_0. }
+      pose proof (Bmult_correct 53 1024 Hp64 He64 mode_NE (D.div lj L) L) as Cm.
+      rewrite (no_overflow 53 1024 Hp64 _ 1023 ltac:(zl) MpL) in Cm. destruct Cm as (CRm & _).
+      change (Bmult mode_NE (D.div lj L) L) with (D.mul (D.div lj L) L) in CRm.
+      rewrite CRm, Rp, Rmult_0_l. apply RN64_0. }
+    unfold position_at. fold lens. set (d := progress_to_dist lens (D.div lj L)) in *.
+    destruct (position_near_vertex_ieee path Hc Hs Hn Ht40 M HM HM0 d j pj lj Fd Hd Hj Lj) as (q & Hq & Bx & By).
+    exists q. split; [exact Hq|]. fold lens L in Bx, By.
+    rewrite Rd, <- Hzero in Bx, By. replace (0 - 0) with 0 in Bx, By by ring.
+    rewrite Rabs_R0, Rmult_0_r, Rplus_0_l in Bx, By.
+    assert (DF0 : 0 <= (1 + delta19) * Dfrac 0 (B2R L)).
+    { pose proof delta19_pos. pose proof eta64_pos. unfold Dfrac. apply Rmult_le_pos; [lra|]. nra. }
+    unfold B. rewrite <- Hzero. split; lra.
+Qed.
